@@ -190,7 +190,7 @@ CLAIMS = {
     "C15": dict(
         engine="E2 gendump + E3 execgen",
         technique="Coq proofs over an abstract format (round trip, wrong length, undecodable element) + generator differential + real JSON/bincode executions",
-        text="Theorems C15_roundtrip, C15_wrong_length, C15_bad_element over Model/Serde.v (the format's and the field types' enc/dec are Section variables "
+        text="C15_record_roundtrip (Proofs/SerdeRecords.v): on the abstract machine, serialising a record that holds a variant reads every field through its accessor in declaration order and faults nowhere, and deserialising the elements builds, through the generated constructor, a record holding the same values; an input of another length never reaches the constructor. Theorems C15_roundtrip, C15_wrong_length, C15_bad_element over Model/Serde.v (the format's and the field types' enc/dec are Section variables "
              "with dec (enc x) = x); C15_gen_order: serialize and deserialize list all fields in declaration order with their types. E2 ties order, types and "
              "the tuple length literal; E3 does JSON and bincode round trips, every truncation, one element too many, an undecodable element at every "
              "position and a failing element decoder, with the ledger checking that nothing decoded is leaked.",
